@@ -172,7 +172,7 @@ def run(prop, tier, seed, replay=None):
             sims = [(VOCAB, 1500, 5, 14), (KEYVAL, 300, 4, 9), (GLOSS, 400, 4, 8), (ENDS, 600, 4, 8), (NUMS, 600, 4, 7), (DEFM, 1500, 3, 6)]
         else:
             sets = [(VOCAB, 2, 'all'), (MID, 3, 'two'), (CORE12, 5, 'two'), (CORE8, 6, 'two'), (KEYVAL, 5, 'two'), (VOCAB[:60], 3, 'one'),
-                    (GLOSS, 4, 'two'), (ENDS, 4, 'two'), (NUMS, 5, 'two'), (DEFM, 5, 'one')]
+                    (GLOSS, 4, 'two'), (ENDS, 4, 'one'), (NUMS, 4, 'two'), (DEFM, 4, 'two')]
             sims = [(VOCAB, 30000, 5, 16), (KEYVAL, 3000, 4, 10), (GLOSS, 6000, 5, 10), (ENDS, 8000, 5, 10), (NUMS, 6000, 5, 9), (DEFM, 10000, 4, 9)]
         seen = set()
         batches = [(free_docs(c, syms, n), prof) for syms, n, prof in sets]
